@@ -56,11 +56,13 @@ type block struct {
 	hasLabel bool
 	x        lit
 	inner    bool
+	extra    bool // also sets zz, which the nested specification does not have
 }
 
 type config struct {
 	attrs  []lit // values of p, q
 	blocks []block
+	extra  int // 1: an item no schema mentions at the top level; 2: inside the first block
 }
 
 var attrNames = []string{"p", "q"}
@@ -94,6 +96,15 @@ func genConfig() config {
 		}
 		c.blocks = append(c.blocks, b)
 	}
+	if vf.Param("extras", 0) == 1 {
+		c.extra = pick(3)
+		if c.extra == 2 && len(c.blocks) == 0 {
+			c.extra = 1
+		}
+	}
+	if c.extra == 2 {
+		c.blocks[0].extra = true
+	}
 	return c
 }
 
@@ -102,12 +113,18 @@ func nativeSrc(c config) string {
 	for i, a := range c.attrs {
 		src += attrNames[i] + " = " + a.native + "\n"
 	}
+	if c.extra == 1 {
+		src += "zz = 1\n"
+	}
 	for _, b := range c.blocks {
 		src += "blk"
 		if b.hasLabel {
 			src += ` "` + b.label + `"`
 		}
 		src += " {\n  x = " + b.x.native + "\n"
+		if b.extra {
+			src += "  zz = 1\n"
+		}
 		if b.inner {
 			src += "  inner {\n    y = 1\n  }\n"
 		}
@@ -121,6 +138,9 @@ func blockBodyJSON(b block, comment bool) string {
 	if comment {
 		s += `, "//": "a comment property"`
 	}
+	if b.extra {
+		s += `, "zz": 1`
+	}
 	if b.inner {
 		s += `, "inner": {"y": 1}`
 	}
@@ -132,6 +152,9 @@ func jsonSrc(c config, form int, comment bool) string {
 	var props []string
 	for i, a := range c.attrs {
 		props = append(props, `"`+attrNames[i]+`": `+a.json)
+	}
+	if c.extra == 1 {
+		props = append(props, `"zz": 1`)
 	}
 	if comment {
 		props = append(props, `"//": "top-level comment"`)
